@@ -192,12 +192,17 @@ struct Buf
 template <class U>
 using Cont = std::conditional_t<std::is_same_v<U, bool>, Buf<U>, std::vector<U>>;
 
-// a generated input range: items are produced on dereference
+// a generated input range: items are produced on dereference, and the range is SINGLE-PASS like
+// an istream range - all iterators share one cursor, incrementing any of them consumes an item
+// for good; it has no size().  A second traversal (e.g. a std::distance before the copy) finds
+// the source exhausted: items read behind its end are 0, and the advances are counted
 template <class U>
 struct Gen
 {
     const std::vector<long>* vals;
+    mutable std::size_t cursor = 0;
     static inline long produced = 0;
+    static inline long advanced = 0;
     struct It
     {
         using iterator_category = std::input_iterator_tag;
@@ -206,28 +211,31 @@ struct Gen
         using pointer = const U*;
         using reference = U;
         const std::vector<long>* vals;
-        std::size_t i;
+        std::size_t* cursor;
+        bool is_end;
+        bool done() const { return is_end || *cursor >= vals->size(); }
         U operator*() const
         {
             ++produced;
-            return make<U>((*vals)[i]);
+            return make<U>(*cursor < vals->size() ? (*vals)[*cursor] : 0);
         }
         It& operator++()
         {
-            ++i;
+            ++*cursor;
+            ++advanced;
             return *this;
         }
         It operator++(int)
         {
             auto c = *this;
-            ++i;
+            ++*this;
             return c;
         }
-        bool operator==(const It& o) const { return i == o.i; }
-        bool operator!=(const It& o) const { return i != o.i; }
+        bool operator==(const It& o) const { return done() == o.done(); }
+        bool operator!=(const It& o) const { return done() != o.done(); }
     };
-    It begin() const { return It{vals, 0}; }
-    It end() const { return It{vals, vals->size()}; }
+    It begin() const { return It{vals, &cursor, false}; }
+    It end() const { return It{vals, &cursor, true}; }
 };
 
 template <class U, class C>
@@ -353,11 +361,13 @@ void run_case(const std::vector<long>& vals, std::size_t n)
     {
         Gen<U> g{&vals};
         Gen<U>::produced = 0;
+        Gen<U>::advanced = 0;
         if constexpr (Rvalue)
             emplace(std::move(g));
         else
             emplace(g);
-        if (Gen<U>::produced != static_cast<long>(n)) std::printf("PATHERR consumed %ld items for %zu objects\n", Gen<U>::produced, n);
+        if (Gen<U>::produced != static_cast<long>(n) || Gen<U>::advanced != static_cast<long>(n))
+            std::printf("PATHERR consumed %ld items (%ld advances) for %zu objects\n", Gen<U>::produced, Gen<U>::advanced, n);
     }
     else
     {
